@@ -156,6 +156,10 @@ def unview(t: Term) -> Term:
             if a[0] in ("list", "tuple"):                    # bytes([..]) is a constructor
                 break
             t = a
+        elif fref[0] == "ext" and fref[1] == "int" and len(args) == 1 and not t[3] and (
+                (args[0][0] == "bin" and args[0][1] in ("&", ">>", "<<", "|", "^")) or
+                (args[0][0] == "sub" and args[0][2][0] == "const" and isinstance(args[0][2][1], int) and not isinstance(args[0][2][1], bool))):
+            t = args[0]          # int(<bit arithmetic>) / int(buf[3]): already an int
         elif fref[0] == "meth" and fref[2] in ("tobytes",) and not args:
             t = fref[1]
         elif fref[0] == "ext" and fref[1] in ("typing.cast", "cast") and len(args) == 2:
@@ -780,6 +784,40 @@ class TermAnalysis(Analysis):
             return st
         st.pc = st.pc + ((c, truth),)
         return st
+
+    IMPLIED_ASSERT_ADDS_NOTHING = True
+
+    def assert_holds(self, node: ast.Assert, state: State) -> bool:
+        """the asserted condition follows from the path condition and the value ranges of its operands (facts.provable)"""
+        from .facts import provable
+        saved_rec, self.record = self.record, False
+        saved_inl, self._inl = self._inl, []
+        try:
+            c = self.ev(node.test, state.copy())
+        except AnalysisError:
+            return False
+        finally:
+            self.record, self._inl = saved_rec, saved_inl
+        ann = {}
+        if self.fn is not None:
+            a_ = self.fn.node.args
+            for p_ in a_.posonlyargs + a_.args + a_.kwonlyargs:
+                if p_.annotation is not None:
+                    ann[p_.arg] = norm(p_.annotation)
+
+        def byte_leaf(t):
+            # an element of a bytes-like parameter (through slices and views): 0..255
+            if t[0] == "sub" and is_const(t[2]) and isinstance(t[2][1], int):
+                b = unview(t[1])
+                while b[0] == "slice":
+                    b = unview(b[1])
+                if b[0] == "param" and ann.get(b[1], "").split("[")[0] in ("bytes", "bytearray", "memoryview", "Union[bytes, bytearray]"):
+                    return (0, 255)
+            return None
+        try:
+            return provable(c, state.pc, byte_leaf, self.prog)
+        except Exception:
+            return False
 
     def for_bind(self, node, state: State):
         st = state.copy()
